@@ -54,6 +54,14 @@ def place_root(b, p):
     if ty == BS:
         return ("local", l), proj
     if ty in ("&mut " + BS, "&" + BS) and proj and proj[0]["k"] == "deref":
+        # a pointer that is a copy / reborrow of another one (the parameter of an inlined helper) names
+        # the same object: report the pointer it came from
+        from wa.mir import alias_of
+        r, mode, pr0 = alias_of(b, l)
+        if mode == "val" and not pr0 and r != l and b.local_ty(r) in ("&mut " + BS, "&" + BS):
+            return ("ptr", r), proj[1:]
+        if mode == "ref" and b.local_ty(r) == BS:
+            return ("local", r), list(pr0) + list(proj[1:])
         return ("ptr", l), proj[1:]
     if ty.startswith("&mut ") and proj and proj[0]["k"] == "deref":
         # a pointer into a BoardState (`let flag = &mut self.white_king_side_castle; *flag = false`)
@@ -97,6 +105,23 @@ class Events:
                     self.writes.append((loc, root, "sq", tuple(idx + cidx), v))
                 else:
                     self.writes.append((loc, root, f, None, v))
+        # std mutators through `&mut field`: `self.field.take()` stores None (and hands back the old value)
+        from wa.mir import alias_of as _alias_of
+        for bb, t in b.iter_calls():
+            c = callee_of(t) or ""
+            if not (c.endswith("Option::<T>::take") and t["args"]):
+                continue
+            a = t["args"][0]
+            if a.get("k") not in ("copy", "move") or a["place"]["proj"]:
+                continue
+            r, mode, pr = _alias_of(b, a["place"]["local"])
+            root = None
+            if mode == "ptrref" and b.local_ty(r) in ("&mut " + BS,):
+                root = ("ptr", r)
+            elif mode == "ref" and b.local_ty(r) == BS:
+                root = ("local", r)
+            if root is not None and pr and pr[0]["k"] == "field" and pr[0]["name"] in HASHED and len(pr) == 1:
+                self.writes.append((b.term_loc(bb), root, pr[0]["name"], None, ("agg", "std::option::Option", "None", ())))
 
 
 def control_equivalent(b, x, y):
@@ -300,6 +325,30 @@ def r5_positive_control(ctx):
 
 
 # ---- R5.1 helpers -------------------------------------------------------------------------------
+def _enum_value(f, v, known, variants):
+    """Variant name of an enum-valued expression: a literal, an expression the hypothesis fixes, or a
+    crate-local pure function of such a value (`x.opposite()`), evaluated by specialising the callee."""
+    from wa.cond import specialise
+    v = strip_refs(v)
+    if v in known:
+        return known[v]
+    if v[0] == "agg" and not v[3]:
+        return v[2]
+    if v[0] == "call" and f.has_body(v[1]) and len(v[2]) == 1:
+        a = _enum_value(f, v[2][0], known, variants)
+        if a is None:
+            return None
+        cb = f.body(v[1])
+        b2, ex2, _ = specialise(cb, {("arg", 1): ("eq", a)}, {("arg", 1): variants})
+        vals = set()
+        for rb in b2.return_blocks():
+            r = strip_refs(ex2.local(0, b2.term_loc(rb)))
+            vals.add(r[2] if r[0] == "agg" and not r[3] else None)
+        if len(vals) == 1:
+            return next(iter(vals))
+    return None
+
+
 def _path_events(b, ev, blocks):
     bs = set(blocks)
     out = []
@@ -317,30 +366,35 @@ def r5_1(ctx):
     f = ctx.facts
     cvariants = f.enum_variant_by_discr("move_generation::CastlingType")
     colours = f.enum_variant_by_discr("board::PieceColor")
-    # --- swap_color
-    b = f.body(SWAP)
+    # --- swap_color: decided per colour of the side to move on the body specialised to that colour
+    # (a two-arm `match` and `self.to_move = self.to_move.opposite()` alike)
+    from wa.cond import specialise
+    from wa.mir import ReachingDefs
+    sb = f.body(SWAP)
     ctx.note_fn(*HELPERS)
-    ev = Events(b)
-    ex = ev.ex
-    paths = enum_paths(b, ex)
-    for pi, (blocks, dec) in enumerate(paths):
-        es = _path_events(b, ev, blocks)
-        ws = [e for e in es if e[2] == "w"]
-        xs = [e for e in es if e[2] == "x"]
-        ok = len(ws) == 1 and ws[0][3][1] == "to_move" and len(xs) == 1 and xs[0][3][1] == [("side",)] and xs[0][3][2]
-        detail = ""
-        if ok:
-            v = ws[0][3][3]
-            cur = enum_value_on_trace(b, ex, ws[0][4][0], ("field", ("mem", 1, None), "to_move"), colours)
-            # the value written must be the other colour than the one the path branched on
-            seen = None
-            for d, (vals, oth) in dec.items():
-                if d[0] == "discr" and strip_refs(d[1])[0] == "field" and strip_refs(d[1])[2] == "to_move" and not oth and len(vals) == 1:
-                    seen = colours.get(vals[0])
-            ok = v[0] == "agg" and seen is not None and v[2] != seen and v[2] in colours.values()
-            detail = "on the path where to_move is %s it becomes %s and the side key is XORed once" % (seen, v[2] if v[0] == "agg" else "?")
-        ctx.ob("swap_color:path#%d" % pi, ok, b.where((blocks[-1], 0)), detail or "each path must toggle to_move once and XOR the side key once; events: %s" % [(e[2], e[3][1]) for e in es])
-    ctx.floor("swap_color paths", len(paths), 2)
+    selfp = [i for i in range(1, sb.arg_count + 1) if sb.local_ty(i) == "&mut " + BS]
+    if len(selfp) != 1:
+        raise ShapeNotRecognised("swap_color(&mut self, ..)")
+    tm = ("field", ("mem", selfp[0], frozenset({(ReachingDefs.ENTRY, "entry")})), "to_move")
+    npaths = 0
+    for cur in sorted(colours.values()):
+        other = [c for c in colours.values() if c != cur][0]
+        b, _e, _d = specialise(sb, {tm: ("eq", cur)}, {tm: colours})
+        ev = Events(b)
+        ex = ev.ex
+        for pi, (blocks, dec) in enumerate(enum_paths(b, ex)):
+            npaths += 1
+            es = _path_events(b, ev, blocks)
+            ws = [e for e in es if e[2] == "w"]
+            xs = [e for e in es if e[2] == "x"]
+            ok = len(ws) == 1 and ws[0][3][1] == "to_move" and len(xs) == 1 and xs[0][3][1] == [("side",)] and xs[0][3][2]
+            detail = ""
+            if ok:
+                nv = _enum_value(f, ws[0][3][3], {tm: cur}, colours)
+                ok = nv == other
+                detail = "with %s to move to_move becomes %s and the side key is XORed once" % (cur, nv)
+            ctx.ob("swap_color:%s:path#%d" % (cur, pi), ok, b.where((blocks[-1], 0)), detail or "each path must toggle to_move once and XOR the side key once; events: %s" % [(e[2], e[3][1]) for e in es])
+    ctx.floor("swap_color paths", npaths, 2)
     # --- take_away_castling_rights: decided per castling type on the body specialised to that type
     # (`castling_type == V && self.flag_V` chains and `match castling_type {V => &mut self.flag_V}` alike)
     from wa.cond import specialise
@@ -403,9 +457,18 @@ def r5_1(ctx):
     for pi, (blocks, dec) in enumerate(paths):
         es = _path_events(b, ev, blocks)
         some = None
+        def _old_target(x):
+            """x reads the target as it was on entry: the field itself, or what `take()` handed back."""
+            x = strip_refs(x)
+            if x[0] == "field" and x[2] == "pawn_double_move":
+                return True
+            return x[0] == "call" and x[1].endswith("Option::<T>::take") and len(x[2]) == 1 and _old_target(x[2][0])
         for d, (vals, oth) in dec.items():
-            if d[0] == "discr" and strip_refs(d[1])[0] == "field" and strip_refs(d[1])[2] == "pawn_double_move":
+            if d[0] == "discr" and _old_target(d[1]):
                 some = (vals == (1,) and not oth)
+        if some is False:
+            # storing None where the target is known to be None already changes nothing (`take()` does that)
+            es = [e for e in es if not (e[2] == "w" and e[3][1] == "pawn_double_move" and e[3][3][0] == "agg" and e[3][3][2] == "None")]
         if not es:
             ctx.ob("unset_pawn_double_move:path#%d" % pi, some is False or some is None and False or some is False, b.where((blocks[-1], 0)),
                    "no events on the path where the target is %s" % ("None" if some is False else "Some/unknown"))
@@ -420,7 +483,7 @@ def r5_1(ctx):
             file_e = strip_refs(xs[0][3][1][0][1])
             # the file must be read from the old target: payload of pawn_double_move at a point before the write
             sl = list(subexprs(file_e))
-            reads_old = any(x[0] == "downcast" and x[2] == "Some" and strip_refs(x[1])[0] == "field" and strip_refs(x[1])[2] == "pawn_double_move" for x in sl)
+            reads_old = any(x[0] == "downcast" and x[2] == "Some" and _old_target(x[1]) for x in sl)
             is_col = file_e[0] == "field" and file_e[2] == "1"
             # version of the memory read must precede the write
             wloc = ws[0][4]
@@ -492,11 +555,70 @@ def r5_1(ctx):
 
 # ---- R5.4 from_fen ------------------------------------------------------------------------------
 def r5_4(ctx):
+    """from_fen builds the key from scratch: piece keys of the stored pieces, the side key iff Black is to
+    move, the en-passant file iff a target was parsed, each castling key iff its flag.  The scan is run on
+    the body specialised to each side to move, so that `key = match to_move {White => 0, Black => side}`
+    and `if to_move == Black { key ^= side }` are the same thing."""
+    from wa.cond import specialise
     f = ctx.facts
-    b = f.body(FROM_FEN)
+    b0 = f.body(FROM_FEN)
     ctx.note_fn(FROM_FEN)
-    ex = Exprs(b)
+    ex0 = Exprs(b0)
     colours = f.enum_variant_by_discr("board::PieceColor")
+    fields = f.struct_fields(BS)
+    tm_e = None
+    for loc0, st0 in b0.iter_stmts():
+        if st0["k"] == "assign" and st0["rv"]["k"] == "aggregate" and st0["rv"].get("adt") == BS:
+            e0 = ex0.rvalue(st0["rv"], loc0)
+            tm_e = strip_refs(e0[3][fields.index("to_move")])
+    if tm_e is None:
+        raise ShapeNotRecognised("from_fen: no BoardState literal")
+    results = {}
+    # key accumulators stay symbolic (never expanded to their history), so that `key ^= t` shows as
+    # "current key XOR t" also where specialisation leaves the key a single reaching definition
+    keep = {l for l in b0.names if b0.local_ty(l) == "u64"}
+    for colour in ("White", "Black"):
+        b, _ex, _dead = specialise(b0, {tm_e: ("eq", colour)}, {tm_e: colours})
+        ex = Exprs(b, keep=keep)
+        results[colour] = _r5_4_scan(ctx, f, b, ex, colour, emit=(colour == "White"))
+    w, k = results["White"], results["Black"]
+    ctx.ob("from_fen:side-key", w["side"] == 0 and k["side"] == 1 and w["side_ok"] and k["side_ok"], b0.where((0, 0)),
+           "side key terms entering the key: %d with White to move, %d with Black to move (must be 0 and 1, into a key that is still empty or by XOR)" % (w["side"], k["side"]))
+    same = w["piece"] == k["piece"] and w["ep"] == k["ep"] and w["castle"] == k["castle"]
+    ctx.ob("from_fen:components-complete", same and w["piece"] >= 1 and w["ep"] == 1 and w["castle"] == set(FLAG_VARIANT.values()),
+           b0.where((0, 0)), "key components built from scratch: piece terms %d, ep %d, castling %s (same for both sides to move: %s)" % (
+               w["piece"], w["ep"], sorted(x for x in w["castle"] if x), same))
+
+
+def _key_empty_before(b, ex, p, loc):
+    """Every definition of the key place reaching `loc` stores the constant 0 (or there is none yet)."""
+    if p["proj"]:
+        return ex.place(p, loc) == ("const", 0)
+    for dloc, kind in b.reaching().defs(p["local"], loc):
+        if kind == "entry":
+            continue
+        if kind != "whole":
+            return False
+        st = b.stmts(dloc[0])
+        if dloc[1] >= len(st):
+            return False
+        rv = st[dloc[1]]["rv"]
+        if not (rv["k"] == "use" and rv["op"]["k"] == "const" and rv["op"].get("val") in (0, "0")):
+            from wa.mir import scalar_value
+            try:
+                if not (rv["k"] == "use" and rv["op"]["k"] == "const" and scalar_value(rv["op"]) == 0):
+                    return False
+            except Exception:
+                return False
+    return True
+
+
+def _r5_4_scan(ctx, f, b, ex, colour, emit):
+    colours = f.enum_variant_by_discr("board::PieceColor")
+
+    def ob(*a, **kw):
+        if emit:
+            ctx.ob(*a, **kw)
     # the local key accumulator: a u64 local that receives XOR updates
     acc = set()
     upd = []   # (loc, target_desc, terms, selfx, plain_assign_expr)
@@ -514,7 +636,16 @@ def r5_4(ctx):
         selfx = [t for t in terms if t == cur]
         rest = [classify_term(t) for t in terms if t != cur]
         upd.append((loc, p, rest, len(selfx) == 1, e))
-    seen = {"piece": 0, "side": 0, "ep": 0, "castle": set()}
+    # a key local defined directly by a call (`let key = match side {.. => hasher.get_black_to_move_val()}`)
+    for bb, t in b.iter_calls():
+        p = t["dest"]
+        if p["proj"] or b.local_ty(p["local"]) != "u64" or p["local"] not in b.names:
+            continue
+        loc = b.term_loc(bb)
+        e = ex.call_expr(t, loc)
+        terms = xor_terms(e)
+        upd.append((loc, p, [classify_term(t_) for t_ in terms], False, e))
+    seen = {"piece": 0, "side": 0, "ep": 0, "castle": set(), "side_ok": True}
     # value each flag is initialised with in the struct literal (a single-definition struct local is
     # value-numbered to its literal, so `if board.flag` reads as that value)
     flag_init = {}
@@ -535,19 +666,13 @@ def r5_4(ctx):
             where = b.where(loc)
             bf = bool_facts(b, ex, loc[0])
             if t[0] == "side":
-                # key (re)initialised with / XORed by the side key iff to_move == Black
-                ok = False
-                for d, v in bf.items():
-                    if d[0] == "bin" and d[1] == "Eq" and v is True:
-                        for u, w in ((strip_refs(d[2]), strip_refs(d[3])), (strip_refs(d[3]), strip_refs(d[2]))):
-                            if w == ("agg", "board::PieceColor", "Black", ()):
-                                ok = True
+                # on this body the side to move is `colour`: the term may only be here for Black, and a plain
+                # (non-XOR) store of it is fine only while the key is still empty / not yet defined
+                ok = colour == "Black"
                 if not selfx:
-                    # `key = side` is fine only if the key is still 0 here
-                    prev = ex.place(p, loc)
-                    ok = ok and prev == ("const", 0)
+                    ok = ok and _key_empty_before(b, ex, p, loc)
                 seen["side"] += 1
-                ctx.ob("from_fen:side-key", ok, where, "side key enters the key exactly when the side to move is Black (and the key was still empty)")
+                seen["side_ok"] = seen["side_ok"] and ok
             elif t[0] == "piece":
                 seen["piece"] += 1
                 pr, pc = point_of(t[2])
@@ -568,15 +693,15 @@ def r5_4(ctx):
                 # the piece hashed is the piece read back from that square (I7) or the very piece stored there
                 pe = strip_refs(t[1])
                 ok_piece = (pe[0] == "agg" and pe[1] == "board::Piece") or (stored_piece is not None and pe == stored_piece)
-                ctx.ob("from_fen:piece-key#%d" % seen["piece"], stored and ok_piece, where,
+                ob("from_fen:piece-key#%d" % seen["piece"], stored and ok_piece, where,
                        "piece key of %s at (%s, %s): square stored in a dominating block: %s" % (show_expr(pe, b)[:60], show_expr(pr, b), show_expr(pc, b), stored))
             elif t[0] == "ep":
                 seen["ep"] += 1
                 fe = strip_refs(t[1])
                 ok = fe[0] == "field" and fe[2] == "1" and any(x[0] == "downcast" and x[2] == "Some" for x in subexprs(fe))
-                ctx.ob("from_fen:ep-key", ok, where, "en-passant file key from the parsed target's column, only when a target was parsed")
+                ob("from_fen:ep-key", ok, where, "en-passant file key from the parsed target's column, only when a target was parsed")
                 okg, whyg = _ep_guard_exact(f, b, ex, loc)
-                ctx.ob("from_fen:ep-key:condition", okg, where, whyg)
+                ob("from_fen:ep-key:condition", okg, where, whyg)
             elif t[0] == "castle" and strip_refs(t[1])[0] != "agg" and _table_item(b, ex, strip_refs(t[1])) is not None:
                 # table-driven: `for (granted, ty) in [(flag_K, WhiteKingSide), ..] { if granted { key ^= castle(ty) } }`
                 item, comp, elems = _table_item(b, ex, strip_refs(t[1]))
@@ -585,14 +710,14 @@ def r5_4(ctx):
                 for el in elems:
                     el = strip_refs(el)
                     if not (el[0] == "agg" and el[1] == "tuple" and len(el[3]) == 2):
-                        ctx.ob("from_fen:castle-key:table-element", False, where, "table element is not a (flag, type) pair: %s" % show_expr(el, b)[:60], reason="shape-not-recognised")
+                        ob("from_fen:castle-key:table-element", False, where, "table element is not a (flag, type) pair: %s" % show_expr(el, b)[:60], reason="shape-not-recognised")
                         continue
                     ty_e = strip_refs(el[3][int(comp)])
                     g_e = strip_refs(el[3][int(gcomp[0])]) if gcomp else None
                     var = ty_e[2] if ty_e[0] == "agg" else None
                     ok = guard_true and g_e is not None and any(FLAG_VARIANT[k] == var and v_ == g_e for k, v_ in flag_init.items())
                     seen["castle"].add(var)
-                    ctx.ob("from_fen:castle-key:%s" % var, ok, where, "castling key %s enters under its own flag (table entry guarded by `%s`)" % (var, show_expr(g_e, b)[:50] if g_e else "?"))
+                    ob("from_fen:castle-key:%s" % var, ok, where, "castling key %s enters under its own flag (table entry guarded by `%s`)" % (var, show_expr(g_e, b)[:50] if g_e else "?"))
             elif t[0] == "castle":
                 v = strip_refs(t[1])
                 var = v[2] if v[0] == "agg" else None
@@ -604,11 +729,15 @@ def r5_4(ctx):
                     if val is True and any(FLAG_VARIANT[k] == var and v_ == sd for k, v_ in flag_init.items()):
                         ok = True
                 seen["castle"].add(var)
-                ctx.ob("from_fen:castle-key:%s" % var, ok, where, "castling key %s enters under its own flag" % var)
+                ob("from_fen:castle-key:%s" % var, ok, where, "castling key %s enters under its own flag" % var)
+            elif t[0] == "other" and strip_refs(t[1])[0] == "var" and strip_refs(t[1])[1] in {pp["local"] for _, pp, _, _, _ in upd if not pp["proj"]} \
+                    and strip_refs(t[1])[1] != (p["local"] if not p["proj"] else None):
+                # the key accumulated by a helper (inlined) is folded in: its own updates are scanned as well
+                seen.setdefault("merged", 0)
+                seen["merged"] += 1
             else:
-                ctx.ob("from_fen:unknown-key-term", False, where, "key updated with an unrecognised term: %s" % show_expr(t[1], b)[:80], reason="shape-not-recognised")
-    ctx.ob("from_fen:components-complete", seen["piece"] >= 1 and seen["side"] == 1 and seen["ep"] == 1 and seen["castle"] == set(FLAG_VARIANT.values()),
-           b.where((0, 0)), "key components built from scratch: piece terms %d, side %d, ep %d, castling %s" % (seen["piece"], seen["side"], seen["ep"], sorted(x for x in seen["castle"] if x)))
+                ob("from_fen:unknown-key-term", False, where, "key updated with an unrecognised term: %s" % show_expr(t[1], b)[:80], reason="shape-not-recognised")
+    return seen
 
 
 def _table_item(b, ex, e):
